@@ -34,7 +34,9 @@ MARK = {'running': 'on_process_running', 'waiting': 'on_process_waiting', 'finis
 
 # ------------------------------------------------------------------ running the implementation
 def run_impl(case):
-    return c16_run.run_twin(case)
+    obs = c16_run.run_twin(case)
+    obs['regfault'] = c16_run.registration_fault_probe(case)
+    return obs
 
 
 # ------------------------------------------------------------------ printers
@@ -142,6 +144,17 @@ def oracle(case, obs):
             return {'signature': 'constructor_differs', 'kind': str(obs['constructor_raised'])}
         return None
     R, D = obs['R'], obs['D']
+    # 0. (implementation only) a time-out of the RPC registration leaves the broadcast control path in place
+    p = obs.get('regfault') or {}
+    if p.get('error'):
+        return {'signature': 'registration_timeout_disturbs_the_process', 'kind': p['error']}
+    if p.get('ran') and p.get('final'):
+        if p['subscribed'] != [False, True]:
+            return {'signature': 'registration_timeout_changes_the_broadcast_subscription', 'kind': str(p['subscribed'])}
+        if p['live_after_pause'] and not p['paused']:
+            return {'signature': 'broadcast_pause_lost_after_registration_timeout', 'kind': p['final']}
+        if p['live_after_pause'] and p['final'] not in ('killed', 'excepted', 'killing'):
+            return {'signature': 'broadcast_kill_lost_after_registration_timeout', 'kind': p['final']}
     # 1. remote == direct, after every callback and at the end
     if obs['diverged'] is not None:
         d = obs['diverged']
